@@ -22,6 +22,12 @@
     * `index k` takes an arbitrary key; `.name` needs a string.
   What the fragment takes from the host library (`IterMsg`: `funcIndex2` and the two error texts
   `catch` can receive) is instantiated with what `Spec.eval` uses (`specMsg`).
+
+  `toSyntax` is a function, so it picks one jq form per mini construct.  The relation `Tr q A`
+  ("the jq query `A` is compiled as the mini query `q`") and its lifting `TrProg` to programs also
+  read the jq forms that compiler.go compiles to the instructions of ANOTHER construct of the
+  fragment (parentheses, `if` without `else`, `elif`, `and` / `or`, two-argument `foreach`, postfix
+  `t[]`, `t.name`, `t?`, `t[]?`, `t.name?`); the theorems of Props/C01Tie.lean are stated for it.
   Core Lean only.
 -/
 import Gojq.Model.MiniVM
